@@ -55,11 +55,13 @@ type worker struct {
 	after    int64
 	only     int64
 	trace    bool
+	cpuCap   float64
 
 	maxFrac   float64 // largest alloc/budget among cases within budget
 	maxAlloc  uint64
 	maxAllocN int
 	maxDesc   string
+	samples   map[string][]any // at most two per family
 	ms0, ms1  runtime.MemStats
 }
 
@@ -85,6 +87,17 @@ var warmRequests = []string{
 }
 
 func (w *worker) cfg() *cfgT { return &cfgs[w.cfgIdx] }
+
+// sample keeps at most two explored cases per family (and hands them to core's l.Sample).
+func (w *worker) sample(fam string, v map[string]any) {
+	if w.samples == nil {
+		w.samples = map[string][]any{}
+	}
+	if len(w.samples[fam]) < 2 {
+		w.samples[fam] = append(w.samples[fam], v)
+		w.l.Sample(v)
+	}
+}
 
 func (w *worker) ctxKind() string {
 	if w.cfg().Custom {
@@ -215,6 +228,7 @@ type judgeOpts struct {
 	exactlyOne   bool   // the stream holds exactly one request: exactly one final response is required
 	skipParse    bool   // response syntax is not judged (argument outside the documented domain)
 	allocTrigger string // names the input class in an allocation signature
+	minTrigger   func() string // optional: narrows the class (called only when the budget is exceeded)
 	parseSig     func(*ParseErr) string // family 3: classifies a response-syntax error per helper
 }
 
@@ -243,6 +257,9 @@ func (w *worker) judgeCommon(req []byte, res *result, desc func() map[string]any
 		}
 	}
 	if res.alloc > bud {
+		if o.minTrigger != nil {
+			o.allocTrigger = o.minTrigger()
+		}
 		l.Violate(fmt.Sprintf("alloc-over-budget trigger=%s", o.allocTrigger),
 			"bytes allocated while serving the connection exceed A + B*len(request) (re-measured on a fresh application)",
 			desc(), map[string]any{"allocated_bytes": res.alloc, "request_bytes": len(req)}, map[string]any{"budget_bytes": bud, "A": budgetA, "B": budgetB})
@@ -383,14 +400,25 @@ func (w *worker) runF1(line reqLine, h hset) {
 		malID = "empty-method"
 	}
 	trig := "f1:" + strings.Join(h.ids(), "+")
-	first := w.judgeCommon(req, res, desc, judgeOpts{fam: "f1", exactlyOne: simple && !hostile && line.M.Token, allocTrigger: trig})
+	first := w.judgeCommon(req, res, desc, judgeOpts{fam: "f1", exactlyOne: simple && !hostile && line.M.Token, allocTrigger: trig,
+		minTrigger: func() string {
+			// name the single letter that is enough to exceed the budget, if there is one
+			rb := newReqBuilder()
+			for _, x := range h {
+				one := rb.build(line, hset{x})
+				if w.remeasure(one) > budgetFor(len(one)) {
+					return "f1:" + x.Slot + ":" + x.ID
+				}
+			}
+			return trig
+		}})
 	st := 0
 	if first != nil {
 		st = first.Status
 	}
 	l.Outcome(fmt.Sprintf("f1 st=%d eh=%d ran=%d n=%d range=%s fresh=%v flash=%d", st, w.st.ehCode, w.st.ran, len(res.resps), w.st.rangeCls, w.st.fresh, min(w.st.flashN, 3)))
-	if w.caseNo%200003 == 0 {
-		l.Sample(map[string]any{"case": desc(), "status": st, "handler_ran": w.st.ran, "alloc_bytes": res.alloc})
+	if w.caseNo%100003 == 0 {
+		w.sample("f1", map[string]any{"case": desc(), "status": st, "handler_ran": w.st.ran, "alloc_bytes": res.alloc})
 	}
 	if w.st.rangeCls == "OUTSIDE" {
 		l.Violate("range-outside-size", "Range(1000) returned a range outside [0,1000): slicing the 1000-byte entity with it panics in the handler", desc(), nil, "0 <= Start <= End <= 999")
@@ -473,8 +501,8 @@ func (w *worker) runF2(seedIdx int, buf *[]byte, es ...edit) {
 		st = first.Status
 	}
 	l.Outcome(fmt.Sprintf("f2 st=%d eh=%d ran=%d n=%d range=%s", st, w.st.ehCode, w.st.ran, len(res.resps), w.st.rangeCls))
-	if w.caseNo%200003 == 0 {
-		l.Sample(map[string]any{"case": desc(), "status": st, "handler_ran": w.st.ran, "alloc_bytes": res.alloc})
+	if w.caseNo%100003 == 0 {
+		w.sample("f2", map[string]any{"case": desc(), "status": st, "handler_ran": w.st.ran, "alloc_bytes": res.alloc})
 	}
 	if w.st.rangeCls == "OUTSIDE" {
 		l.Violate("range-outside-size", "Range(1000) returned a range outside [0,1000): slicing the 1000-byte entity with it panics in the handler", desc(), nil, "0 <= Start <= End <= 999")
@@ -515,7 +543,7 @@ func (w *worker) runF3(hi int, qi int) {
 	cls := "ok"
 	defer func() { l.Outcome(fmt.Sprintf("f3 helper=%s %s", sp.Name, cls)) }()
 	if qi%397 == 0 && hi%5 == 0 {
-		l.Sample(map[string]any{"case": desc(), "written": clipOut(res.out)})
+		w.sample("f3", map[string]any{"case": desc(), "written": clipOut(res.out)})
 	}
 	if res.pan != nil {
 		cls = "panic"
